@@ -101,7 +101,9 @@ class SelfDependencyEliminator(ASTStatementRewriter):
         from pymbolic import var
 
         from dagrt.language import Assign
-        for var_name in read_and_written:
+        # In sorted order: the names and ids of the temporaries end up in
+        # generated code, which must not depend on set iteration order.
+        for var_name in sorted(read_and_written):
             tmp_var_name = self.var_name_gen(
                     "temp_"
                     + var_name.replace("<", "_").replace(">", "_"))
